@@ -180,6 +180,28 @@ theorem C01_representation_independent_dataset (s s' : Src) (dds0 : Bytes) (t : 
   rw [body, encImpl_eq t d hwf] at this
   exact this
 
+/-! ### why the open finding `C01.lazy_type_peek` is not a local repair
+
+A lazy source (`IterData`) carries no declaration: `IterData.dtype` reads the column types off the first record.
+With no record there is nothing to read them from — the empty source is a value of EVERY sequence declaration, so
+no function of the records alone returns the declaration the publisher meant.  A repair therefore needs types that
+are declared somewhere (a new argument of `IterData`, carried through `__copy__`/`__getitem__`/`copy_template`),
+not a fallback inside `dtype`; see design_notes/C01.md. -/
+
+/-- the empty source is a well-formed value of EVERY admissible sequence declaration, and it is sent as the same
+    four bytes under every one of them: neither the records nor the data bytes determine the column types -/
+theorem C01_lazy_type_peek_undetermined :
+    (∀ cs, cs ≠ [] → seqCols cs = true → WF (.seq cs) (.rows []) = true) ∧
+    (∀ cs, encImpl (.seq cs) (.rows []) = Gen.END_OF_SEQUENCE) := by
+  refine ⟨?_, ?_⟩
+  · intro cs hne hc
+    cases cs with
+    | nil => exact absurd rfl hne
+    | cons c cs => simp [WF, WFrows, hc]
+  · intro cs
+    simp only [encImpl]
+    split <;> simp [encRowsFlat, encRowsNested]
+
 /-! ### non-vacuity -/
 
 def exT : Tmpl := .struct [.base .uint16 [2, 2], .struct [.base .byte [], .base .string []],
@@ -218,6 +240,8 @@ example : ∃ bs, encArr exRepA = .ok bs ∧ encArr exRepB = .ok bs ∧
     decImpl (.base .int16 [3]) bs = .ok (.array [.num 1, .num (-2), .num 3], []) :=
   C01_representation_independent exRepA exRepB .int16 [3] _ ⟨by decide, by decide, by rfl⟩
     ⟨by decide, by decide, by rfl⟩ (by decide)
+example : WF (.seq [.base .int32 []]) (.rows []) = true ∧ WF (.seq [.base .string [], .base .byte []]) (.rows []) = true := by
+  decide
 example : (Src.struct [.arr exRepA, .val (.base .string []) (.scalar (.str []))]).view?
     = (Src.struct [.arr exRepB, .val (.base .string []) (.scalar (.str []))]).view? := by rfl
 
